@@ -342,3 +342,177 @@ def run(ctx):
     else:
         ctx.ok("R-ENDIAN", "R-ENDIAN:conversions", "elvis-core/src/protocols/ipv4/ipv4_address.rs",
                "u32::from(addr) = %s; Ipv4Address::from(n) = %s; no other byte-order operation in the two modules (%d be conversions)" % (dirs["to_u32"], dirs["from_u32"], nconv))
+
+
+# ------------------------------------------------------------------------------------------------ R-ORDER (semantic)
+class CannotEvaluate(Exception):
+    pass
+
+
+def _ord_eval(prog, t, env, depth=0):
+    """Evaluate a formula built from comparisons to a Python value (int, bool, -1/0/1 for Ordering, tuples for tuples /
+    wrappers). `env` maps leaf terms to values. Understands the core::cmp vocabulary used to write comparators."""
+    if depth > 40:
+        raise CannotEvaluate("nesting too deep")
+    if t in env:
+        return env[t]
+    k = t[0]
+    ev = lambda x: _ord_eval(prog, x, env, depth + 1)
+    if k == "const":
+        return t[1]
+    if k == "bool":
+        return t[1]
+    if k == "variant" and t[1].endswith("cmp::Ordering"):
+        return {"Less": -1, "Equal": 0, "Greater": 1}[t[2]]
+    if k == "cast":
+        return ev(t[1])
+    if k == "field" and t[2] == "0":
+        v = ev(t[1])
+        return v[1][0] if isinstance(v, tuple) and v and v[0] in ("wrap", "rev") else v
+    if k == "pair":
+        return ("tup", (ev(t[1]), ev(t[2])))
+    if k == "agg":
+        name = t[1].rsplit("::", 1)[-1]
+        vals = tuple(ev(x) for x in t[2])
+        if name == "Reverse" and len(vals) == 1:
+            return ("rev", vals)
+        if len(vals) == 1:
+            return vals[0]            # newtype wrappers (Ipv4Mask, Ipv4Address, Obm)
+        return ("tup", vals)
+    if k == "not":
+        v = ev(t[1])
+        return (not v) if isinstance(v, bool) else (~v) % M32
+    if k == "ite":
+        return ev(t[2]) if ev(t[1]) else ev(t[3])
+    if k == "discr":
+        return ev(t[1])
+    if k == "switch":
+        c = ev(t[1])
+        if isinstance(c, bool):
+            c = int(c)
+        for v, x in t[2]:
+            if v == c or (isinstance(c, int) and c < 0 and v in (c % 256, c % (1 << 64), c % M32)):
+                return ev(x)
+        return ev(t[3])
+    if k == "bin":
+        return eval_u32(("bin", t[1], ("const", _as_int(ev(t[2]))), ("const", _as_int(ev(t[3])))), {})
+    if k == "call":
+        name = t[1].rsplit("::", 1)[-1]
+        args = t[2]
+        if name in CONV | {"mask", "id", "deref", "borrow", "as_ref"} and len(args) == 1 and not (t[1].startswith(SN) and name in ("mask", "id") and False):
+            return ev(args[0])
+        if name in ("cmp", "partial_cmp") and len(args) == 2:
+            return _cmp(ev(args[0]), ev(args[1]))
+        if name in ("lt", "le", "gt", "ge", "eq", "ne") and len(args) == 2 and t[1].startswith("core::cmp"):
+            c = _cmp(ev(args[0]), ev(args[1]))
+            return {"lt": c < 0, "le": c <= 0, "gt": c > 0, "ge": c >= 0, "eq": c == 0, "ne": c != 0}[name]
+        if name == "reverse" and len(args) == 1:
+            return -ev(args[0])
+        if name == "then" and len(args) == 2:
+            a = ev(args[0])
+            return a if a != 0 else ev(args[1])
+        if name in ("then_with", "unwrap_or_else") and len(args) == 2:
+            a = ev(args[0])
+            if name == "then_with" and a != 0:
+                return a
+            clo = args[1]
+            if clo[0] == "agg" and clo[1].split("::{closure")[0] and clo[1] in prog.bodies or (clo[0] == "agg" and clo[1].rsplit("::", 1)[0] in prog.bodies):
+                key = clo[1] if clo[1] in prog.bodies else clo[1].rsplit("::", 1)[0]
+                cb = prog.bodies[key]
+                ct, _ = S.extract(prog, cb, args=(clo,) + tuple(("param", "_c%d" % i) for i in range(cb.argc - 1)), inline=_module_inline(prog))
+                return ev(ct)
+            raise CannotEvaluate("closure %s" % S.term_str(clo))
+        if name in ("unwrap", "expect", "unwrap_or") and args:
+            return ev(args[0])
+        if name == "count_ones" and len(args) == 1:
+            return bin(_as_int(ev(args[0]))).count("1")
+        if name == "leading_ones" and len(args) == 1:
+            v = _as_int(ev(args[0]))
+            n = 0
+            while n < 32 and v & (1 << (31 - n)):
+                n += 1
+            return n
+        if name == "trailing_zeros" and len(args) == 1:
+            v = _as_int(ev(args[0]))
+            n = 0
+            while n < 32 and not v & (1 << n):
+                n += 1
+            return n
+        if name == "leading_zeros" and len(args) == 1:
+            v = _as_int(ev(args[0]))
+            n = 0
+            while n < 32 and not v & (1 << (31 - n)):
+                n += 1
+            return n
+        if name in ("wrapping_add", "wrapping_sub") and len(args) == 2:
+            a, b = _as_int(ev(args[0])), _as_int(ev(args[1]))
+            return (a + b) % M32 if name == "wrapping_add" else (a - b) % M32
+        if name in ("saturating_sub",) and len(args) == 2:
+            return max(0, _as_int(ev(args[0])) - _as_int(ev(args[1])))
+        if name in ("min", "max") and len(args) == 2:
+            a, b = ev(args[0]), ev(args[1])
+            return (a if _cmp(a, b) <= 0 else b) if name == "min" else (b if _cmp(a, b) <= 0 else a)
+    raise CannotEvaluate(S.term_str(t)[:120])
+
+
+def _as_int(v):
+    if isinstance(v, bool):
+        return int(v)
+    if isinstance(v, int):
+        return v
+    if isinstance(v, tuple) and v and v[0] in ("wrap",) and len(v[1]) == 1:
+        return _as_int(v[1][0])
+    raise CannotEvaluate("not an integer: %r" % (v,))
+
+
+def _cmp(a, b):
+    if isinstance(a, tuple) and isinstance(b, tuple) and a and b and a[0] == b[0]:
+        if a[0] == "rev":
+            return _cmp(b[1][0], a[1][0])
+        for x, y in zip(a[1], b[1]):
+            c = _cmp(x, y)
+            if c:
+                return c
+        return 0
+    a, b = _as_int(a), _as_int(b)
+    return (a > b) - (a < b)
+
+
+def check_obm_order(ctx, rule="R-ORDER"):
+    """Ord for the route-table key, evaluated for every pair of mask lengths and every relation of the ids."""
+    prog = ctx.prog()
+    oc = prog.method("Obm", "cmp", "Ord")
+    key = rule + ":Obm::cmp"
+    inl = _module_inline(prog)
+    try:
+        t, _ = S.extract(prog, oc, inline=inl)
+    except S.Unsupported as e:
+        ctx.require(False, "%s: cannot extract Obm::cmp (%s)" % (rule, e))
+        return
+    SELF, OTHER = ("param", "self"), ("param", "other")
+    net = lambda p: ("field", p, "0")
+    leaves = {"ms": ("field", net(SELF), "mask"), "mo": ("field", net(OTHER), "mask"), "is": ("field", net(SELF), "network_id"), "io": ("field", net(OTHER), "network_id")}
+    mask_of = lambda n: ((M32 - 1) << (32 - n)) % M32
+    bad = None
+    n = 0
+    try:
+        for n1 in range(33):
+            for n2 in range(33):
+                for (i1, i2) in ((1, 2), (2, 2), (2, 1)):
+                    env = {leaves["ms"]: mask_of(n1), leaves["mo"]: mask_of(n2), leaves["is"]: i1, leaves["io"]: i2}
+                    got = _ord_eval(prog, t, env)
+                    want = ((n2 > n1) - (n2 < n1)) if n1 != n2 else ((i1 > i2) - (i1 < i2))
+                    n += 1
+                    if got != want and bad is None:
+                        bad = (n1, n2, i1, i2, got, want)
+    except CannotEvaluate as e:
+        ctx.require(False, "%s: Obm::cmp uses a construct the order evaluator does not model (%s): no verdict" % (rule, e))
+        return
+    nm = {-1: "Less", 0: "Equal", 1: "Greater"}
+    if bad:
+        n1, n2, i1, i2, got, want = bad
+        ctx.bad(rule, key, oc.span,
+                "Obm::cmp = %s: for a /%d key against a /%d key (ids %s) it returns %s, the route table needs %s (longest mask first, then id): lookup is no longer longest-prefix match / distinct networks alias" % (
+                    S.term_str(t)[:200], n1, n2, "equal" if i1 == i2 else "self < other" if i1 < i2 else "self > other", nm.get(got, got), nm[want]))
+    else:
+        ctx.ok(rule, key, oc.span, "Obm::cmp orders by mask length descending, then network id, on all %d (mask length pair, id relation) cases" % n)
